@@ -123,16 +123,68 @@ def _isinstance_names(test: ast.AST, var: Optional[str] = None) -> List[str]:
     return out
 
 
-def _marks_map_function(ctx: Ctx) -> FuncUnit:
+def _reads_annotations(ctx: Ctx, m: FuncUnit, depth: int = 3) -> bool:
+    """m, or a helper of the builder it calls, reads the annotations of a run method"""
     b = _builder_class(ctx)
-    for m in b.methods.values():
-        src = unparse(m.node)
-        if '__annotations__' in src and 'isinstance' in src and 'append' in src:
-            return m
+    for n in ast.walk(m.node):
+        if isinstance(n, ast.Attribute) and n.attr == '__annotations__':
+            return True
+        if isinstance(n, ast.Constant) and n.value == '__annotations__':
+            return True
+        if isinstance(n, ast.Call) and (dotted(n.func) or '').split('.')[-1] in ('get_type_hints', 'get_annotations', 'signature'):
+            return True
+    if depth:
+        for n in ast.walk(m.node):
+            if isinstance(n, ast.Call) and isinstance(n.func, ast.Attribute) and n.func.attr in b.methods and n.func.attr != m.name \
+                    and _reads_annotations(ctx, b.methods[n.func.attr], depth - 1):
+                return True
+    return False
+
+
+def _marks_map_function(ctx: Ctx) -> FuncUnit:
+    """The marks reader, by its role: the builder method whose result the traversal uses (assigns / iterates) and that -
+    itself or through helpers - reads the annotations of the node's run method."""
+    b = _builder_class(ctx)
+    trav = _traverse_unit(ctx)
+    stmts_only = {id(st.value) for st in ast.walk(trav.node) if isinstance(st, ast.Expr)}
+    for n in ast.walk(trav.node):
+        if isinstance(n, ast.Call) and id(n) not in stmts_only and isinstance(n.func, ast.Attribute) and n.func.attr in b.methods:
+            m = b.methods[n.func.attr]
+            if m is not trav and _reads_annotations(ctx, m):
+                return m
     raise AnalysisError('marks-map function (annotations -> marks) not found')
 
 
-def _traverse_function(ctx: Ctx) -> FuncUnit:
+def _marks_verdicts(ctx: Ctx, mm: FuncUnit, marks: Dict[str, ClassInfo]) -> Tuple[Set[str], Set[str]]:
+    from ..absint import AObj, Interp, Oracle, TOP, enumerate_outcomes
+    p = ctx.p
+    b = _builder_class(ctx)
+    accepted: Set[str] = set()
+    rejected: Set[str] = set()
+    for name, ci in sorted(marks.items()):
+        mark = AObj(ci, {}, tag=f'mark:{name}')
+
+        def run(oracle: Oracle, mark=mark):
+            run_method = AObj(('ext', 'function'), {'__annotations__': {'p': mark, 'return': TOP}}, tag='run-method')
+            stubs = {}
+            for u in p.functions.values():
+                if u.parent is None and u.cls is None and u.name == 'get_callable_run_method':
+                    stubs[u.fid] = lambda interp, a, k, s_: run_method
+            hints = lambda a, k: {'p': mark, 'return': TOP}      # noqa: E731
+            interp = Interp(p, oracle, stubs=stubs, ext_stubs={'typing.get_type_hints': hints, 'inspect.get_annotations': hints})
+            n = AObj(('ext', 'Node'), {'process': run_method})
+            res = interp.call_unit(mm, [n], {}, None if mm.is_static else AObj(b, {}))
+            return any(isinstance(x, tuple) and len(x) == 2 and x[1] is mark for x in interp._to_list(res))
+        outs = enumerate_outcomes(run)
+        kinds = {(o[0], o[1] if o[0] == 'value' else None) for o in outs}
+        if kinds == {('value', True)}:
+            accepted.add(name)
+        elif kinds and all(k_ == 'raise' for k_, _ in kinds):
+            rejected.add(name)
+    return accepted, rejected
+
+
+def _traverse_unit(ctx: Ctx) -> FuncUnit:
     b = _builder_class(ctx)
     best = None
     for m in b.methods.values():
@@ -141,6 +193,11 @@ def _traverse_function(ctx: Ctx) -> FuncUnit:
             best = m
     if best is None:
         raise AnalysisError('traversal function (worklist over marks) not found')
+    return best
+
+
+def _traverse_function(ctx: Ctx) -> FuncUnit:
+    best = _traverse_unit(ctx)
     # mark branches that were outlined into methods (`if isinstance(mark, X): self._add_x(...)`) are spliced back
     from ..norm import inline_view
     only = set()
@@ -230,30 +287,9 @@ def rule_marks(ctx: Ctx, out: Collector) -> None:
     marks = _mark_classes(ctx)
     mm = _marks_map_function(ctx)
     trav = _traverse_function(ctx)
-    accepted: Set[str] = set()
-    rejected: Set[str] = set()
-    # a mark class is accepted when the statement that records the (name, mark) pair runs under isinstance(mark, cls),
-    # rejected when a raise does - whatever the spelling (`if not isinstance: continue` / `if isinstance: append`)
-    for n in ast.walk(mm.node):
-        is_record = isinstance(n, ast.Call) and isinstance(n.func, ast.Attribute) and n.func.attr in ('append', 'add', 'extend')
-        is_yield = isinstance(n, (ast.Yield,))
-        if is_record or is_yield:
-            for e, pol in guards(mm.node, n):
-                if pol:
-                    accepted |= set(_isinstance_names(e))
-        elif isinstance(n, ast.Raise):
-            for e, pol in guards(mm.node, n):
-                if pol:
-                    rejected |= set(_isinstance_names(e))
-        elif isinstance(n, (ast.ListComp, ast.GeneratorExp, ast.SetComp)):
-            for gen in n.generators:
-                for cond in gen.ifs:
-                    parts: list = []
-                    from ..guards import decompose
-                    decompose(cond, True, parts)
-                    for e, pol in parts:
-                        if pol:
-                            accepted |= set(_isinstance_names(e))
+    # decided by interpreting the reader on a run method with one parameter annotated with an object of the class: the
+    # (name, mark) pair comes back (accepted), the reader raises (rejected), or the parameter is dropped
+    accepted, rejected = _marks_verdicts(ctx, mm, marks)
     loop, mark_var, kw_var, br = _branches(ctx, trav)
     handled = set(br)
     cons = f'{mm.module.name}::{mm.qualname}::accepted marks == translated marks'
@@ -662,28 +698,7 @@ def rule_node_map_and_validation(ctx: Ctx, out: Collector) -> None:
         out.ok('BD-6', cons, ctx.p.loc(build, build.node), 'neither the graph nor the node map of the returned DAG is the builder\'s own object')
     else:
         out.bad('BD-6', cons, ctx.p.loc(build, build.node), f'the DAG returned by build shares the builder\'s graph / node map ({"; ".join(sorted(shared))})')
-    # ---- VL-4
-    cons = f'{build.module.name}::{build.qualname}::graph validation precedes the construction of the DAG'
-    validated_always = True
-    for single in (False, True):
-        for res, builder_obj, graph_obj, node_map_obj, calls in interpret_build(ctx, False, (), single):
-            if not any('validate' in c and 'node' not in c for c in calls):
-                validated_always = False
-    if validated_always:
-        out.ok('VL-4', cons, ctx.p.loc(build, build.node), 'the graph validation runs on every path of build() before the DAG is returned')
-    else:
-        out.bad('VL-4', cons, ctx.p.loc(build, build.node), 'the recurrent-subgraph validation does not dominate the construction of the '
-                                                            'DAG: invalid recurrent declarations are built', props={'C16'})
-    vg = b.methods.get('_validate_graph')
-    if vg is not None:
-        called = {x.func.attr for x in ast.walk(vg.node) if isinstance(x, ast.Call) and isinstance(x.func, ast.Attribute)}
-        want = [m.name for m in b.methods.values() if m.name.startswith('_validate_recurrent')]
-        missing = [w for w in want if w not in called]
-        cons = f'{vg.module.name}::{vg.qualname}::runs every recurrent validation'
-        if not missing and want:
-            out.ok('VL-4', cons, ctx.p.loc(vg, vg.node), f'{sorted(want)}')
-        else:
-            out.bad('VL-4', cons, ctx.p.loc(vg, vg.node), f'_validate_graph does not run {missing or "any recurrent validation"}', props={'C16'})
+    # VL-4 (the recurrent validations decide before a DAG is handed out) is decided over builder worlds: bw.rule_recurrent_validations
 
 
 def _loop_var_of(node: ast.AST, ref: str, args: List[str]) -> bool:
@@ -739,6 +754,12 @@ def rule_rejections(ctx: Ctx, out: Collector) -> None:
         seen[u.fid] = u
         env = FuncEnv.of(p, u)
         for n in env.own_nodes():
+            # a function named as a value (stored in a table, handed to a helper) may be called: address-taken reachability
+            if isinstance(n, ast.Attribute) and isinstance(n.ctx, ast.Load) and isinstance(n.value, ast.Name) \
+                    and n.value.id in ('self', 'cls') and u.cls is not None:
+                m = p.lookup_method(u.cls, n.attr)
+                if m is not None:
+                    work.append(m)
             if isinstance(n, ast.Call):
                 for t in env.resolve_call(n):
                     if t[0] == 'func':
@@ -764,6 +785,11 @@ def rule_rejections(ctx: Ctx, out: Collector) -> None:
         seen[u.fid] = u
         env = FuncEnv.of(p, u)
         for n in env.own_nodes():
+            if isinstance(n, ast.Attribute) and isinstance(n.ctx, ast.Load) and isinstance(n.value, ast.Name) \
+                    and n.value.id in ('self', 'cls') and u.cls is not None:
+                m = p.lookup_method(u.cls, n.attr)
+                if m is not None:
+                    work.append(m)
             if isinstance(n, ast.Call):
                 for t in env.resolve_call(n):
                     if t[0] == 'func':
